@@ -36,7 +36,7 @@ Example ex_hist_nonneg : Forall op_nonneg hist.
 Proof. repeat constructor; cbn; lia. Qed.
 
 Example ex_hist_trace :
-  map (fun x => (snd x, map (fun s => (atp s, nadh s, debt s, accrued s)) (fst x)))
+  map (fun x => (snd x, map (fun s => (atp s, nadh s, debt s, owed s)) (fst x)))
       (run classify_float tenth false sys0 hist) =
   [ (RBool true,  [(2, 3, 0, 0); (0, 0, 0, 0)]);
     (RBool true,  [(0, 1, 0, 0); (0, 0, 0, 0)]);
@@ -45,15 +45,15 @@ Example ex_hist_trace :
     (RBool true,  [(0, 0, 6, 0); (0, 0, 10, 0)]);
     (RUnit,       [(0, 0, 6, 0); (0, 0, 11, 1)]);     (* debt 11 > max_debt 10: interest aside *)
     (RUnit,       [(3, 0, 0, 0); (0, 0, 11, 1)]);
-    (RBool true,  [(1, 0, 0, 0); (0, 0, 9, 1)]);
-    (RInt 0,      [(1, 0, 0, 0); (0, 0, 9, 1)]);
-    (RUnit,       [(1, 0, 0, 0); (0, 0, 9, 1)]);
-    (RBool false, [(1, 0, 0, 0); (0, 0, 9, 1)]);
-    (RUnit,       [(1, 0, 0, 0); (0, 0, 9, 1)]) ].
+    (RBool true,  [(1, 0, 0, 0); (0, 0, 9, 0)]);      (* the payment retires the interest first *)
+    (RInt 0,      [(1, 0, 0, 0); (0, 0, 9, 0)]);
+    (RUnit,       [(1, 0, 0, 0); (0, 0, 9, 0)]);
+    (RBool false, [(1, 0, 0, 0); (0, 0, 9, 0)]);
+    (RUnit,       [(1, 0, 0, 0); (0, 0, 9, 0)]) ].
 Proof. vm_compute. reflexivity. Qed.
 
 (* exact charge through top-up and debt: net worth 5 -> -5 for a cost of 10 *)
-Definition s_topup := mkStore 2 0 3 10 0 3 0 10 0 Normal 1 10 0.
+Definition s_topup := mkStore 2 0 3 10 0 3 0 10 0 Normal 1 10 0 0.
 Example ex_exact_charge_topup_debt :
   let r := consume classify_float false s_topup 10 ATP true 0 in
   snd r = RBool true /\ networth s_topup = 5 /\ networth (fst r) = -5 /\ debt (fst r) = 5 /\
@@ -61,7 +61,7 @@ Example ex_exact_charge_topup_debt :
 Proof. vm_compute. repeat split; reflexivity. Qed.
 
 (* a free failure that still moves NADH into ATP, lifting ATP above its capacity *)
-Definition s_full := mkStore 10 0 3 10 0 3 0 0 0 Normal 1 10 0.
+Definition s_full := mkStore 10 0 3 10 0 3 0 0 0 Normal 1 10 0 0.
 Example ex_free_failure_after_topup :
   let r := consume classify_float false s_full 20 ATP false 0 in
   snd r = RBool false /\ atp (fst r) = 13 /\ nadh (fst r) = 0 /\ networth (fst r) = networth s_full.
@@ -79,8 +79,26 @@ Example ex_spend_bound_tight :
   Forall (no_inflow 0) ops /\
   spent_on classify_float tenth false 0 [s_topup] ops = 15 /\
   paid_steps classify_float tenth false 0 [s_topup] ops = 1 /\
-  atp s_topup + gtp s_topup + nadh s_topup + max_debt s_topup + accrued s_topup - debt s_topup = 15.
+  atp s_topup + gtp s_topup + nadh s_topup + max_debt s_topup + owed s_topup - debt s_topup = 15.
 Proof. split; [repeat constructor|]. vm_compute. repeat split; reflexivity. Qed.
+
+(* borrow to the limit, interest, repay everything, borrow again: the second
+   loan is again capped by max_debt (the refused call is the one a cached,
+   clamped credit line would grant); principal borrowed without inflow stays within the limit (interest uses room) *)
+Definition s_loan := mkStore 10 0 0 10 0 0 0 100 0 Normal 1 10 0 0.
+Example ex_borrow_cycle :
+  let ops := [ Local 0 (Consume 110 ATP true 10); Local 0 Interest; Local 0 (Regenerate 110 ATP);
+               Local 0 (Consume 110 ATP true 10); Local 0 (Consume 100 ATP true 10) ] in
+  map (fun x => (snd x, map (fun s => (atp s, debt s, owed s, accrued s)) (fst x)))
+      (run classify_float tenth false [s_loan] ops) =
+  [ (RBool true,  [(0, 100, 0, 0)]);
+    (RUnit,       [(0, 110, 10, 10)]);
+    (RUnit,       [(0, 0, 0, 10)]);
+    (RBool false, [(0, 0, 0, 10)]);
+    (RBool true,  [(0, 100, 0, 10)]) ] /\
+  borrowed_on classify_float tenth false 0 [s_loan] [Local 0 (Consume 60 ATP true 10); Local 0 Interest;
+                                                     Local 0 (Consume 45 ATP true 10)] = 95.
+Proof. vm_compute. split; reflexivity. Qed.
 
 (* a transfer that loses energy at the receiver's cap and creates none *)
 Example ex_transfer :
@@ -112,7 +130,7 @@ Lemma c04_exact_charge_nadh_legacy_refuted :
     snd (consume classify_float true s cost t allow prio) = RBool true /\
     networth (fst (consume classify_float true s cost t allow prio)) <> networth s - cost.
 Proof.
-  exists (mkStore 10 0 5 10 0 5 0 10 0 Normal 1 10 0), 8, NADH, true, 0. split; [|split; [lia|]].
+  exists (mkStore 10 0 5 10 0 5 0 10 0 Normal 1 10 0 0), 8, NADH, true, 0. split; [|split; [lia|]].
   - unfold good, caps_ok, inv. cbn. lia.
   - vm_compute. split; [reflexivity | discriminate].
 Qed.
